@@ -59,7 +59,10 @@ class CompileWorld(GWorld):
             if attr == "size2":
                 return _Const(1)
             if attr == "name":
-                return _Const("sym")
+                nm = self.str_of_symbol(it, o, node)
+                if nm is None:
+                    raise it.err(node, "name() of a value that is not a symbol")
+                return _Const(nm)
         return GWorld.getattr(self, it, o, attr, node)
 
     def str_of_symbol(self, it, v, node):
